@@ -115,7 +115,7 @@ def close_e(a, b, p, slack=1.02):
         return False
     m = max(abs(a), abs(b))
     e = math.floor(math.log10(m))
-    tol = 0.5 * 10.0 ** (e - p) * slack
+    tol = 0.5 * 10.0 ** (e - p) * slack + 4 * 2.3e-16 * m      # + a few ulps of the magnitude
     return abs(a - b) <= tol
 
 
